@@ -9,11 +9,18 @@
     length, the merged list built by `Table.Diff`'s second loop, walked by `MigrationColumnUp`, turns the old order into
     exactly the new order and every step is well-formed on the reference engine (MySQL FIRST/AFTER rules).
 
-  Missing for `Statement_partial`: the refinement from the `Impl` walk (slices + position maps, `Arrange`) to the `Abs`
-  walk, and the attribute / index / foreign-key lemmas (L-elem).  Those parts are covered by the correspondence run and
+  * `printed_columns` — the same **on the implementation model**: the ADD / DROP COLUMN statements that `walkCols` (the
+    `MigrationColumnUp` walk over full column records, any dialect but SQLite, default field order) prints for a diffed
+    table are exactly the abstract walk's (refinement `walkCols_up_refines`, Proofs/WalkRefine.lean), hence executed on
+    the old column order they are well-formed at every step and give the new column order.  Columns being renamed are
+    outside (recorded region `rename-column`).  `Arrange` is the identity on every reachable state (C08).
+
+  Missing for `Statement_partial`: that `Table.Diff`'s second loop builds the merged list `Abs.merge` describes (slices
+  + position maps), and the attribute / index / foreign-key lemmas (L-elem).  Those parts are covered by the correspondence run and
   by the executable predicate `Spec.c01` evaluated on the implementation's printed migration on every check.
 -/
 import SqlizeModel.Abs.Columns
+import SqlizeModel.Proofs.WalkRefine
 import SqlizeModel.Impl.Api
 import SqlizeModel.Spec.Scope
 
@@ -39,6 +46,21 @@ def Statement_partial : Prop :=
 theorem columns (N O : List Abs.Name) (hN : N.Nodup) (hO : O.Nodup) (hc : Abs.OrderCompatible N O) :
     Abs.execAll O (Abs.emitUp (Abs.tagged N O)) = some N :=
   Abs.columns_up N O hN hO hc
+
+/-- column-order core of C01 on the implementation model's walk -/
+theorem printed_columns (g : Globals) (hio : g.ignoreOrder = false) (hd : g.dialect ≠ .sqlite) (tb : String)
+    (cols : List Column) (hact : ∀ c ∈ cols, SimpleAction c.action) (hne : ∀ c ∈ cols, c.name ≠ "")
+    (hnd : (cols.map (·.name)).Nodup) :
+    Abs.execAll (oldNames cols) ((Table.walkCols g tb true [] cols).1.filterMap colStmt) = some (newNames cols) :=
+  printed_up_correct g hio hd tb cols hact hne hnd
+
+-- non-vacuity of `printed_columns`: a merged list with a kept, a dropped, an added and a modified column
+def exCols : List Column :=
+  [{ name := "a", action := .none }, { name := "x", action := .remove }, { name := "b", action := .add, cur := { typ := some "int(11)" } },
+   { name := "c", action := .modify, cur := { typ := some "text" } }]
+example : (Table.walkCols {} "t" true [] exCols).1.filterMap colStmt = [.dropCol "x", .addCol "b" (some "a")] := by decide
+example : (∀ c ∈ exCols, SimpleAction c.action) ∧ (∀ c ∈ exCols, c.name ≠ "") ∧ (exCols.map (·.name)).Nodup := by
+  refine ⟨?_, ?_, by decide⟩ <;> intro c hc <;> simp [exCols] at hc <;> rcases hc with rfl | rfl | rfl | rfl <;> simp [SimpleAction]
 
 -- non-vacuity: the hypotheses are satisfiable and the walk is non-trivial
 example : Abs.emitUp (Abs.tagged ["z", "a", "b", "e", "d", "f"] ["a", "b", "c", "d"]) =
